@@ -16,6 +16,11 @@
   O-LOOKUP   in SignalStream::new the `GetNameOwner` await starts only after the await that subscribes to
              NameOwnerChanged completed (no owner change can fall between lookup and subscription)
 
+Recognised sender checks: `==` / `!=` (PartialEq call, either polarity) between a value computed from
+`Header::sender()` of the message the NameOwnerChanged was parsed from and the literal "org.freedesktop.DBus"; when the
+literal sits inside a constant promoted by rustc (`== Some("...")`) the facts cannot render it, and a comparison of the
+sender with such a compile-time constant is accepted.
+
 Not decided: that the bus delivers NameOwnerChanged in order; semantics of ordered_stream::join; argument checks on
 the buffered NameOwnerChanged; the match rule strings. Comparisons hidden in helper functions are not recognised
 (the rule then reports, fail closed).
